@@ -30,7 +30,8 @@ RULE = ('case = (protocol situation, mutant stream, delivery mode, ending); dist
 ASSUMPTIONS = ['peer eventually closes or resets the connection (final-state monitors are evaluated after that)',
                'bounded progress: at most 400 loop operations between synchronisation points']
 REQUIRED = ['oracle.no-crash', 'oracle.final-state', 'oracle.user-told', 'oracle.invalid-pdu-aborted',
-            'monitor.wellformed-output', 'oracle.silence']
+            'monitor.wellformed-output', 'oracle.silence',
+            'oracle.pipelined-then-invalid']
 
 SITUATIONS = {
     'awaiting-request': ('acceptor', []),
@@ -59,11 +60,17 @@ def plan(tier, seed):
     for name in SITUATIONS:
         for p in range(parts):
             specs.append({'name': name, 'lo': p * n // parts, 'hi': (p + 1) * n // parts})
+    for k in range(3 if tier == 'quick' else 18):
+        specs.append({'name': 'pipeline', 'index': k})
     return specs
 
 
 def run_shard(spec, tier, seed):
     res = Result()
+    if spec['name'] == 'pipeline':
+        from . import c12pipe
+        c12pipe.run_case(res, {'index': spec['index'], 'seed': seed})
+        return res
     for i in range(spec['lo'], spec['hi']):
         run_case(res, {'situation': spec['name'], 'index': i, 'seed': seed})
     return res
@@ -71,6 +78,10 @@ def run_shard(spec, tier, seed):
 
 def replay(case):
     res = Result()
+    if case.get('pipeline'):
+        from . import c12pipe
+        c12pipe.run_case(res, {'index': case['index'], 'seed': case['seed']})
+        return res
     run_case(res, case, verbose=True)
     return res
 
@@ -80,6 +91,36 @@ def file_cb():
     from pynetdicom2 import applicationentity
     ae = applicationentity.ClientAE('FUZZ')
     return ae.get_file
+
+
+CPU_BUDGET = 20      # seconds of this process's own CPU time for one case (normally milliseconds)
+
+
+class _Stalled(BaseException):
+    pass
+
+
+def cpu_bounded(fn, seconds):
+    """Run fn() under a budget of process CPU time (not wall clock: a loaded machine does not
+    count).  -> True when the budget ran out."""
+    import signal
+
+    def on_timer(signum, frame):
+        raise _Stalled()
+    try:
+        old = signal.signal(signal.SIGVTALRM, on_timer)
+    except ValueError:          # not in the main thread: no budget
+        fn()
+        return False
+    signal.setitimer(signal.ITIMER_VIRTUAL, seconds)
+    try:
+        fn()
+        return False
+    except _Stalled:
+        return True
+    finally:
+        signal.setitimer(signal.ITIMER_VIRTUAL, 0)
+        signal.signal(signal.SIGVTALRM, old)
 
 
 def classify(frame):
@@ -105,7 +146,7 @@ def run_case(res, case, verbose=False):
     # a peer that just stops talking: the connection is closed only later
     silent = r.random() < 0.2
     stop_after = r.random() < 0.3
-    use_file = r.random() < 0.3
+    use_file = r.random() < 0.3 or label.startswith('store-in-progress')
     framed, rest = refcodec.split_stream(stream)
     if mode == 'framed':
         segments = list(framed) + ([rest] if rest else [])
@@ -139,7 +180,7 @@ def run_case(res, case, verbose=False):
                       3: asceprovider.PContextDef(3, uid.UID(F.CT_STORAGE.decode()),
                                                   uid.ImplicitVRLittleEndian)}}
     sim = simnet.Sim(role, script, first_pending=(mode == 'pending'), **kwargs)
-    sim.run()
+    stalled = cpu_bounded(sim.run, CPU_BUDGET)
     res.evaluations += 1
     case = dict(case, label=label, mode=mode, ending=ending, silent=silent)
     res.distinct.add('%s|%s|%s|%s|%s|%s' % (name, label, mode, ending, sim.outcome,
@@ -154,6 +195,11 @@ def run_case(res, case, verbose=False):
 
     # 1. the loop neither dies nor hangs
     res.count('oracle.no-crash')
+    if stalled:
+        res.violation('processing-stalls', 'C12.no-crash',
+                      '%s, mutant %s (%s, %s): %d bytes of input kept the provider busy for more than %d s of '
+                      'CPU time' % (name, label, mode, ending, len(stream), CPU_BUDGET), case)
+        return
     want_outcome = 'returned' if stop_after else 'end-of-script'
     if sim.outcome != want_outcome:
         key = {'raised': 'loop-died', 'blocked': 'blocking-recv', 'budget': 'spinning'}.get(
